@@ -457,6 +457,18 @@ fn num(sp: &str) -> Value {
 	Value::Number(json_syntax::NumberBuf::new(sp.as_bytes().into()).unwrap_or_else(|_| tool_error(&format!("invalid number {sp}"))))
 }
 
+/// Deserializations of Value that FAIL, deep inside containers, on the current thread (truncated text, a malformed number
+/// token, a non-string key): whatever they leave behind must not influence later ones.
+pub fn disturb_de() {
+	let _ = guarded(|| {
+		for bad in ["[[[[[[[[[[1,", "{\"a\":{\"b\":{\"c\":[[[{\"d\":", "[[[[{\"$serde_json::private::Number\":[]}]]]]", "[[[[[[1 2]]]]]]", "{\"a\":[[[[[\"\\uD800\"]]]]]}"] {
+			let _ = serde_json::from_str::<Value>(bad);
+		}
+		let nested = serde_json::json!([[[[[{"$serde_json::private::Number": true}]]]]]);
+		let _ = serde_json::from_value::<Value>(nested);
+	});
+}
+
 /// a Value with every kind of number spelling, strings, duplicate keys (if `dups`)
 fn gen_value(rng: &mut Rng, depth: usize, dups: bool, numclass: usize) -> Value {
 	let k = if depth == 0 { rng.below(4) } else { rng.below(7) };
@@ -484,7 +496,7 @@ fn gen_value(rng: &mut Rng, depth: usize, dups: bool, numclass: usize) -> Value 
 		}),
 		4 => Value::Array((0..rng.below(4)).map(|_| gen_value(rng, depth - 1, dups, numclass)).collect()),
 		_ => {
-			let pool = ["a", "b", "k", "", "\u{e9}", "x y", "$serde_json::private::NumberX"];
+			let pool = ["a", "b", "k", "", "\u{e9}", "x y", "$serde_json::private::NumberX", "$serde_json::private::Number"];
 			let mut es: Vec<Entry> = vec![];
 			for _ in 0..rng.below(5) {
 				let key = if rng.chance(1, 4) { gen_string(rng) } else { rng.pick(&pool).to_string() };
@@ -613,14 +625,31 @@ pub fn record(args: &Args) {
 			if certs.len() == sps.len() {
 				// duplicates collapse through the map visitor: the expected structure is the Insert-fold of v
 				if want("value_de") {
-					let back = match guarded(|| json_syntax::from_value::<Value>(v.clone())) {
+					disturb_de();
+					let mut back = match guarded(|| json_syntax::from_value::<Value>(v.clone())) {
 						Ok(Ok(b)) => project(&b),
 						Ok(Err(e)) => json!({"error": e.to_string()}),
 						Err(p) => json!({"panic": p}),
 					};
+					// the same deserialization INTO an existing value (Deserialize::deserialize_in_place): what the place held
+					// before (a shorter array, a longer one, an object, a scalar) must not matter
+					for place0 in [Value::Array(vec![Value::Null]), Value::Array(vec![Value::Null; 9]), Value::Object(vec![Entry::new("old".into(), Value::Null)].into_iter().collect()), Value::Boolean(true)] {
+						let mut place = place0.clone();
+						let r = guarded(|| <Value as serde::Deserialize>::deserialize_in_place(v.clone(), &mut place));
+						let got = match r {
+							Ok(Ok(())) => project(&place),
+							Ok(Err(e)) => json!({"error": e.to_string()}),
+							Err(p) => json!({"panic": p}),
+						};
+						if got != back {
+							back = json!({"in_place_differs": got, "place": project(&place0)});
+							break;
+						}
+					}
 					lines.push(json!({"ev": "value_de", "v": project(&v), "expect": project(&collapse(&v)), "back": back, "certs": certs}));
 				}
 				if want("text_de") {
+					disturb_de();
 					let text = json_syntax::Print::compact_print(&v).to_string();
 					let back = match guarded(|| serde_json::from_str::<Value>(&text)) {
 						Ok(Ok(b)) => project(&b),
